@@ -124,6 +124,9 @@ func (r *c19) Exec(op []string) string {
 			r.st.Note("repeated-value")
 		}
 		r.seen[v] = true
+		if r.size >= 65 && len(r.seen) == 8*r.size {
+			r.st.Note("size>=65-and-D/size>=8")
+		}
 		r.c.Add(v)
 		p1, n1 := distinct.VerifP(r.c), r.c.Len()
 		k := bits.LeadingZeros64(p1)
@@ -224,6 +227,14 @@ func genC19(g *G) {
 			d = 70 + g.Intn(60)
 		}
 		maxRep := 1 + g.Intn(4)
+		// thorough: one big-buffer history in three is NOT truncated and has 8..10 times as many distinct values as
+		// the buffer holds (second audit §1 C19: with at most 160 adds D/size stayed below 2.4 for sizes ≥ 65, i.e.
+		// at most two halving passes with the second refill word)
+		long := mode == 1 && g.Thorough() && g.Chance(1, 3)
+		if long {
+			d = size * (8 + g.Intn(3))
+			maxRep = 1 + g.Intn(2)
+		}
 		// the stream: each value repeated 1..maxRep times, interleaved
 		var vals []int
 		for v := 0; v < d; v++ {
@@ -243,7 +254,7 @@ func genC19(g *G) {
 				}
 			}
 		}
-		if mode != 0 && len(vals) > g.Scale(160, 500) {
+		if mode != 0 && !long && len(vals) > g.Scale(160, 500) {
 			vals = vals[:g.Scale(160, 500)]
 		}
 		src := &c19src{}
@@ -252,7 +263,7 @@ func genC19(g *G) {
 		keepBias := 1 + g.Intn(4) // coin keeps with probability keepBias/5
 		halveStyle := g.Intn(5)   // 0 random, 1 mostly keep-all, 2 mostly sparse, 3 mixed, 4 realistic coin too
 		for _, v := range vals {
-			if g.Chance(1, 60) {
+			if (!long && g.Chance(1, 60)) || (long && g.Chance(1, 4000)) { // (a Reset every 60 adds would keep D/size small)
 				ops = append(ops, "rst")
 				ctr.Reset()
 			}
@@ -427,6 +438,9 @@ func (r *c19stat) Exec(op []string) string {
 			r.st.Note(fmt.Sprintf("stat-ratio-D/size>=%d", c19bucket(d/size)))
 		}
 		r.st.Note(fmt.Sprintf("stat-|z|<%d", int(z)+1))
+		if size > 64 {
+			r.st.Note("stat-size>64")
+		}
 		if over > 0 {
 			r.st.Note("stat-run-observed-Len>size(F8)")
 		}
@@ -465,6 +479,11 @@ func genC19stat(g *G) {
 		default:
 			size = 2 + g.Intn(63)
 			d = size + 1 + g.Intn(3*size)
+		}
+		if g.Thorough() && i%12 == 7 {
+			// a buffer of more than 64 elements (the halving pass draws a second word), moderately above capacity
+			size = 65 + g.Intn(90)
+			d = size * (2 + g.Intn(4))
 		}
 		rep := 1 + g.Intn(3)
 		g.Case([]string{"reset", fmt.Sprintf("stat %d %d %d %d %d", size, d, rep, runs, g.R.Uint64()>>1)})
